@@ -852,6 +852,7 @@ func runStoreC03s(o *opts) error {
 	tmp := o.get("tmp", os.TempDir())
 	stats := map[string]int{}
 	storeExtraReads = c03IndexReads
+	c03fWriteCoq(o.out) // the schemas of the family wirings as Examples/C03Wirings.v must hold them (compared by checks/c03.py)
 	n := 400
 	if o.thorough() {
 		n = 6000
@@ -887,12 +888,21 @@ func runStoreC03s(o *opts) error {
 		writeJSON(o.out, "stats.json", stats)
 		return nil
 	}
+	famK := -1 // >= 0: the next history is number famK of the systematic family stream (store_c03f.go)
 	one := func(r *rng, w *wiring, i int, cross bool) error {
 		w.derive()
 		g := &histGen{r: r, w: w, p: prof, ids: prof.ids}
 		var txs []hTx
 		var c, obs string
-		if i%2 == 0 {
+		if famK >= 0 {
+			txs = (&warmGen{histGen: g, cross: cross}).c03fFamilyHistory(famK)
+			stats["histories_family"]++
+			var err error
+			c, obs, err = runHistory(w, txs, tmp)
+			if err != nil {
+				return err
+			}
+		} else if i%2 == 0 {
 			// state-aware generation against the live database (store_gen.go)
 			h, err := openHarnessDb(w, tmp)
 			if err != nil {
@@ -977,6 +987,22 @@ func runStoreC03s(o *opts) error {
 		}
 		stats["typed_histories"]++
 	}
+	// store families: several child stores (plain / extended, every registration order) under one parent, unique and set
+	// indexes on every level (store_c03f.go; own random stream): live, warm and systematic family histories in turn
+	rf := newRng(o.seed*15485863 + 29)
+	nFam := n / 3
+	for i := 0; i < nFam; i++ {
+		d := c03fWirings[(i/3)%len(c03fWirings)]
+		famK = -1
+		if i%3 == 2 {
+			famK = i / (3 * len(c03fWirings))
+		}
+		if err := one(rf, wiringByName(d.name), i%3, true); err != nil {
+			return err
+		}
+		stats["family_histories"]++
+	}
+	famK = -1
 	writeJSON(o.out, "stats.json", stats)
 	fmt.Fprintf(os.Stderr, "store_c03s: %d histories\n", n)
 	return nil
